@@ -171,7 +171,9 @@ def run(ctx):
     picked += rest[:max(0, want - len(picked))]
     execs = []
     for r in picked:
-        ops = [dict(ev="upload", id=1, **r)]
+        # "mm": a declared-compressed input is handed over as a gzip file of several members (cat a.gz b.gz, pigz,
+        # rotated logs): just another valid gzip encoding of the same bytes
+        ops = [dict(ev="upload", id=1, mm=bool(r["gzin"]) and rng.random() < 0.5, **r)]
         ops += fetch_plan(rng, th)
         execs.append(ops)
     # raw HTTP requests: every (method, place of the name, gzipped?, digest), (size, kind, gzipped?) and (method, mime,
